@@ -372,3 +372,17 @@ V("methodcall-16-arguments-accepted", "C14", "pyteal/ast/itxn.py", "        if n
 V("label-getlabel-underscore", "C18", "pyteal/ir/labelref.py", "    def getLabel(self) -> str:\n        return self.label", "    def getLabel(self) -> str:\n        return (\"_\" + self.label) if self.label[:1].isdigit() else self.label", "R04.9")
 V("annotation-uint16-reads-uint32", "C07", "pyteal/ast/abi/util.py", "        return Uint16TypeSpec()\n\n    if origin is Uint32:", "        return Uint32TypeSpec()\n\n    if origin is Uint32:", "R07.8")
 V("annotation-static-array-args-swapped", "C07", "pyteal/ast/abi/array_static.py", "        return StaticArray[  # type: ignore[misc]\n            self.value_spec.annotation_type(), Literal[self.array_length]  # type: ignore\n        ]", "        return StaticArray[  # type: ignore[misc]\n            Literal[self.array_length], self.value_spec.annotation_type()  # type: ignore\n        ]", "R07.")
+VARIANTS.append({"name": "twin-txntype-from-sdk-constants", "prop": "C09", "edits": [("pyteal/ast/txn.py", "from pyteal.types import TealType, require_type\n", "from algosdk import constants\nfrom pyteal.types import TealType, require_type\n"), ("pyteal/ast/txn.py", "    AssetFreeze = EnumInt(\"afrz\")  # T2PT7", "    AssetFreeze = EnumInt(constants.ASSETFREEZE_TXN)  # T2PT7")], "rule": None, "expect": "quiet"})
+V("txntype-freeze-is-transfer", "C09", "pyteal/ast/txn.py", "    AssetFreeze = EnumInt(\"afrz\")  # T2PT7", "    AssetFreeze = EnumInt(\"axfer\")  # T2PT7", "R12.2")
+V("maybevalue-load-memo", "C17", "pyteal/ast/maybe.py", "        return self.output_slots[0].load(self.types[0])", "        self._v = getattr(self, \"_v\", None) or self.output_slots[0].load(self.types[0])\n        return self._v", "R11.8")
+V("validate-slots-state-budget", "C17", "pyteal/ir/tealblock.py", "                visited.add(visitedKey)\n\n            currentSlotsInUse = set(inUse)", "                if len(visited) > 5000:\n                    break\n                visited.add(visitedKey)\n\n            currentSlotsInUse = set(inUse)", "R17.5")
+V("relation-array-direction", "C19", "pyteal/ast/abi/util.py", "            if not type_spec_is_assignable_to(a.value_type_spec(), b.value_type_spec()):", "            if not type_spec_is_assignable_to(b.value_type_spec(), a.value_type_spec()):", "R19.1")
+V("index-tuple-bool-before-type-check", "C19", "pyteal/ast/abi/tuple.py", "    valueType = value_types[index]\n    if output.type_spec() != valueType:\n        raise TypeError(\"Output type does not match value type\")\n\n    if type(output) is Bool:", "    valueType = value_types[index]\n    if type(output) is not Bool and output.type_spec() != valueType:\n        raise TypeError(\"Output type does not match value type\")\n\n    if type(output) is Bool:", "R19.6")
+V("gateway-by-name-only", "C15", "pyteal/stack_frame.py", "        return (k := f.function) in cls._compilation_gateways and f.filename.endswith(\n            cls._compilation_gateways[k]\n        )", "        return f.function in cls._compilation_gateways", "R15.9")
+V("label-hash-suffix", "C11", "pyteal/compiler/subroutines.py", "        subroutineToLabel[subroutine] = \"{}_{}\".format(safer_name, index)", "        subroutineToLabel[subroutine] = \"{}_{}\".format(safer_name or hash(subroutine.name()) % 97, index)", "R11.7")
+V("cleaning-context-default-rewind", "C11", "pyteal/ast/router.py", "            ScratchSlot.reset_slot_numbering(starting_slot_id)", "            ScratchSlot.reset_slot_numbering()", "R11.6")
+V("bytes-accepts-short-base-names", "C12", "pyteal/ast/bytes.py", "            elif self.base == \"base64\":", "            elif self.base in (\"base64\", \"b64\"):", "R12.6")
+V("comment-op-application-only", "C18", "pyteal/ir/ops.py", "    comment             = OpType(\"//\",                  Mode.Signature | Mode.Application,  0)", "    comment             = OpType(\"//\",                  Mode.Application,                   0)", "R18.3")
+V("encode-tuple-last-by-identity", "C06", "pyteal/ast/abi/tuple.py", "            notLastDynamicValue = any(\n                [nextValue.type_spec().is_dynamic() for nextValue in values[i + 1 :]]\n            )", "            notLastDynamicValue = elem is not [v_ for v_ in values if v_.type_spec().is_dynamic()][-1]", "R06.2")
+V("evaluate-scratch-without-context", "C05", "pyteal/ast/subroutine.py", "        with _frame_pointer_context(proto if self.use_frame_pt else None):\n            subroutine_body = subroutine.implementation(\n                *loaded_args, **abi_output_kwargs\n            )", "        if self.use_frame_pt:\n            with _frame_pointer_context(proto):\n                subroutine_body = subroutine.implementation(\n                    *loaded_args, **abi_output_kwargs\n                )\n        else:\n            subroutine_body = subroutine.implementation(\n                *loaded_args, **abi_output_kwargs\n            )", "R02.2")
+V("sweep-skips-user-ops", "C02", "pyteal/compiler/compiler.py", "    for stmt in teal:\n        if isinstance(stmt, TealOp):\n            op = stmt.getOp()\n            if op.min_version > version:", "    for stmt in teal:\n        if isinstance(stmt, TealOp) and stmt.expr is None:\n            op = stmt.getOp()\n            if op.min_version > version:", "R04.5")
